@@ -6,6 +6,7 @@ import (
 	"testing"
 
 	"github.com/opsidian/parsley/parsley"
+	"github.com/opsidian/parsley/text"
 	"pgregory.net/rapid"
 )
 
@@ -16,6 +17,8 @@ type SrcCase struct {
 	// Fresh: the grammar is constructed for this case (a program that builds parsers as it goes);
 	// otherwise one grammar value serves every case of the process
 	Fresh bool `json:"fresh,omitempty"`
+	// ReaderFirst (with Pre > 0): the reader is created before the file is placed in its set
+	ReaderFirst bool `json:"readerFirst,omitempty"`
 }
 
 func (c *SrcCase) Describe() string {
@@ -37,7 +40,7 @@ func checkC05(ci interface{}, st *Stats) error {
 	} else {
 		st.Class("grammar value shared with earlier cases")
 	}
-	return checkArithAt(c.Src, c.Pre, st, c.Fresh)
+	return checkArithAt(c.Src, c.Pre, st, c.Fresh, c.ReaderFirst)
 }
 
 func checkArith(s string, st *Stats) error { return checkArithAt(s, 0, st) }
@@ -57,6 +60,15 @@ func checkArithAt(s string, pre int, st *Stats, fresh ...bool) error {
 		}
 	}
 	ctx, _, _ := NewCtxAt(s, pre)
+	if len(fresh) > 1 && fresh[1] && pre > 0 {
+		// the reader exists before its file gets its place behind another file
+		f := newFileOwned("f", []byte(s))
+		rd := text.NewReader(f)
+		ctx = parsley.NewContext(parsley.NewFileSet(text.NewFile("pre", []byte(strings.Repeat("x", pre))), f), rd)
+		if st != nil {
+			st.Class("reader created before the file was placed")
+		}
+	}
 	// Work bound (a count, not a clock): the pinned library needs about 3 n^2 parser calls for an
 	// n-byte expression; a parse is stopped at 1000 n^2 + 10^6 calls and reported, because
 	// "Evaluate returns the value / an error" is not met by a parse that practically never ends.
@@ -171,7 +183,7 @@ func init() {
 			if rapid.IntRange(0, 4).Draw(t, "placed") == 2 {
 				pre = rapid.SampledFrom([]int{1, 2, 5, 20, 300, 65536}).Draw(t, "pre")
 			}
-			return &SrcCase{Src: s, Pre: pre, Fresh: rapid.Bool().Draw(t, "fresh")}
+			return &SrcCase{Src: s, Pre: pre, Fresh: rapid.Bool().Draw(t, "fresh"), ReaderFirst: rapid.Bool().Draw(t, "readerFirst")}
 		},
 		Check: checkC05,
 	})
